@@ -137,6 +137,9 @@ struct GraphSys {
     return s;
   }
 
+  // stale-cache defects need query - mutate - query on ONE object: the engine runs the battery before and after every transition
+  static constexpr bool interleave_queries = true;
+
   void apply(Obj& b, const Op& o, Ctx* c, const std::string&) {
     const auto a = static_cast<EntityUID>(o.a), d = static_cast<EntityUID>(o.b);
     std::string before; if (c) before = graph_key(b.g());
